@@ -38,8 +38,10 @@ fn handshake<P: Pid>(c: &mut ConnBox<P>, ver: Ver, as_client: bool, which: usize
     let (cp, ap) = match which {
         0 => (ConnProf::basic(true), AckProf::basic(false)),
         1 => (ConnProf { ka: 1, rm: Some(2), tam: Some(2), mps: Some(64), sei: None, clean: true }, AckProf { rm: Some(2), tam: Some(2), mps: Some(64), ska: None, ..AckProf::basic(false) }),
-        // client only: persistent CONNECT answered with "session not present"
-        _ => (ConnProf::basic(false), AckProf::basic(false)),
+        // persistent CONNECT answered with "session not present"
+        2 => (ConnProf::basic(false), AckProf::basic(false)),
+        // v5.0: Clean Start 0 without a Session Expiry Interval, answered with "session not present"
+        _ => (ConnProf::resume_no_expiry(), AckProf::basic(false)),
     };
     if as_client {
         send(c, &mut t, cp.ap(ver));
@@ -189,7 +191,7 @@ pub fn c10(rep: &mut Report) {
                 RoleK::Any => vec![true, false],
             };
             for as_client in sides {
-                for which in 0..if as_client { 3 } else { 2 } {
+                for which in 0..if ver == Ver::V5 { 4 } else { 3 } {
                     n += 1;
                     let r = guarded(|| {
                         let mut a = w.conn.clone();
